@@ -103,6 +103,7 @@ Section Mono.
     - rec_step as st1 v sg; reflexivity.
     - rec_step as st1 kv sg; try reflexivity. destruct (key_check kv); try reflexivity.
       rec_step as st2 v2 sg2; reflexivity.
+    - rec_step as st1 v1 sg; reflexivity.
   Qed.
 
   Lemma for_result_oof body r : snd (for_result body r) <> OutOfFuel -> snd r <> OutOfFuel.
@@ -168,8 +169,22 @@ Section Mono.
       rec_step as st3 v3 sg3; cbn [while_body_result]; try reflexivity.
       + apply Hle.
       + destruct sg3 as [[|n] vo|[|n]| | |]; try reflexivity; apply Hle.
-    - (* EFor *) unfold eval_for_expr. intros H. apply for_result_oof in H.
-      rewrite (eval_for_mono (for_body r1 body) (for_body r2 body) (for_body_mono body)); [reflexivity|assumption].
+    - (* EFor *) unfold eval_for_expr.
+      assert (Hfor : forall st0, snd (for_result body (eval_for r1 cls (for_body r1 body) st0 cur [])) <> OutOfFuel ->
+                for_result body (eval_for r2 cls (for_body r2 body) st0 cur []) =
+                for_result body (eval_for r1 cls (for_body r1 body) st0 cur [])).
+      { intros st0 H. apply for_result_oof in H.
+        rewrite (eval_for_mono (for_body r1 body) (for_body r2 body) (for_body_mono body)); [reflexivity|assumption]. }
+      destruct body as [b|b|kb vb|b [| | | | |fe]]; try apply Hfor.
+      + (* into len *) intros H. rewrite Hfor; [reflexivity|].
+        intro C. apply H. destruct (for_result _ _) as [? [?|?|]]; cbn in *; congruence.
+      + (* into f *) rec_step as st0 fv sg; cbn [bindR]; try reflexivity.
+        intros H.
+        assert (Hf : snd (for_result (FYieldInto b (RFun fe)) (eval_for r1 cls (for_body r1 (FYieldInto b (RFun fe))) st0 cur [])) <> OutOfFuel).
+        { intro C. apply H. destruct (for_result _ _) as [? [?|?|]]; cbn in *; congruence. }
+        rewrite (Hfor _ Hf).
+        destruct (for_result _ _) as [st2 [v|sg2|]]; cbn [bindR] in *; try reflexivity.
+        apply apply_val_mono. assumption.
     - (* EBreak *) destruct e; [|reflexivity]. rec_step as st1 v sg; reflexivity.
     - (* EReturn *) destruct e; [|reflexivity]. rec_step as st1 v sg; reflexivity.
     - (* ETry *) unfold eval_try. rec_step as st1 v0 sg; try reflexivity.
@@ -349,6 +364,9 @@ Section Inv.
       - dr; fin.
       - dr; fin.
       - dr; try fin. destruct (key_check _); try fin. dr; fin.
+      - dr; try fin.
+        match goal with |- context [match ?rd with RFirst => _ | _ => _ end] => destruct rd end; try fin.
+        match goal with |- context [match ?v with VInt _ => _ | _ => _ end] => destruct v end; fin.
     Qed.
 
     Lemma bind_params_inv : forall st fr ps args st' r,
@@ -434,9 +452,20 @@ Section Inv.
           destruct s1 as [[|?] ?|[|?]| | |]; try fin; intros H1; apply Hrec in H1; chain.
         + intros H; inversion H; subst; apply (P_scope cur cur); chain.
       - (* EFor *) unfold eval_for_expr.
-        destruct (eval_for rec cls (for_body rec body) st cur []) as [[st1 acc1] r1] eqn:E.
-        apply eval_for_inv in E; [|apply for_body_inv].
-        unfold for_result. destruct r1 as [?|[[|?] [?|]|[|?]| | |]|]; fin.
+        assert (Hfor : forall st0 st2 r2,
+                  for_result body (eval_for rec cls (for_body rec body) st0 cur []) = (st2, r2) -> P cur st0 st2).
+        { intros st0 st2 r2.
+          destruct (eval_for rec cls (for_body rec body) st0 cur []) as [[st1 acc1] r1] eqn:E.
+          apply eval_for_inv in E; [|apply for_body_inv].
+          unfold for_result, finish_res.
+          destruct r1 as [?|[[|?] [?|]|[|?]| | |]|]; try fin;
+            (destruct body as [?|?|? ?|? []]; try fin; destruct acc1; fin). }
+        destruct body as [b|b|kb vb|b [| | | | |fe]]; try (intros H; eapply Hfor; eassumption).
+        + destruct (for_result _ _) as [st2 [v|?|]] eqn:E; apply Hfor in E; cbn [bindR]; try fin.
+          intros H. apply (prim_apply_inv _ _ _ cur) in H. chain.
+        + dr; cbn [bindR]; try fin.
+          destruct (for_result _ _) as [st2 [v2|?|]] eqn:E2; apply Hfor in E2; cbn [bindR]; try fin.
+          intros H. apply (apply_val_inv _ cur) in H. chain.
       - (* EBreak *) destruct e; [|fin]. dr; fin.
       - (* EReturn *) destruct e; [|fin]. dr; fin.
       - (* ETry *) unfold eval_try. dr; try fin.
@@ -975,11 +1004,14 @@ Qed.
 
 (* For: the loop as a whole absorbs one level; the innermost pass absorbs `continue` *)
 Theorem for_absorbs_one_level : forall n st cur cls body,
-  eval (S n) st cur (EFor cls body) = for_result body (eval_for (eval n) cls (for_body (eval n) body) st cur []) /\
+  match body with
+  | FYieldInto _ (RFun _) | FYieldInto _ RLen => True     (* these post-process the outcome *)
+  | _ => eval (S n) st cur (EFor cls body) = for_result body (eval_for (eval n) cls (for_body (eval n) body) st cur [])
+  end /\
   (forall st' acc k v, for_result body (st', acc, Sig (SBreak (S k) v)) = (st', Sig (SBreak k v))) /\
   (forall st' acc k, for_result body (st', acc, Sig (SContinue (S k))) = (st', Sig (SContinue k))) /\
   (forall st' acc v, for_result body (st', acc, Sig (SBreak O (Some v))) = (st', Val v)) /\
-  (forall st' acc, for_result body (st', acc, Sig (SBreak O None)) = (st', Val (finish body acc))) /\
+  (forall st' acc, for_result body (st', acc, Sig (SBreak O None)) = finish_res st' body acc) /\
   (forall st' acc v, for_result body (st', acc, Sig (SReturn v)) = (st', Sig (SReturn v))) /\
   (forall st' acc v, for_result body (st', acc, Sig (SThrow v)) = (st', Sig (SThrow v))) /\
   (forall cb st' fr acc st'' acc',
@@ -987,6 +1019,7 @@ Theorem for_absorbs_one_level : forall n st cur cls body,
      eval_for (eval n) [] cb st' fr acc = (st'', acc', Val tt)).
 Proof.
   intros n st cur cls body. repeat split; try reflexivity.
+  { destruct body as [b|b|kb vb|b [| | | | |fe]]; try reflexivity; exact I. }
   intros cb st' fr acc st'' acc' H. cbn [eval_for]. rewrite H. reflexivity.
 Qed.
 
@@ -1198,7 +1231,7 @@ Theorem per_iteration_closures : forall n st cur x le xs,
      forall m, apply_val (eval (S m)) st' (VClos [] (EVar x) (base + i)) [] = (fst (push_frame st' (base + i)), Val el)).
 Proof.
   intros n st cur x le xs E st' base. split.
-  - change (eval (S (S n))) with (evalF (eval (S n))). cbn [evalF]. unfold eval_for_expr.
+  - change (eval (S (S n))) with (evalF (eval (S n))). cbn [evalF]. unfold eval_for_expr. cbv iota.
     rewrite (eval_for_iter _ _ _ _ _ _ _ _ _ _ E).
     rewrite for_each_closures. reflexivity.
   - intros i el Hi. split; [eapply clos_from_nth; eassumption|].
@@ -1256,7 +1289,7 @@ Theorem yield_is_map_filter : forall n st cur x le g e xs (gf : val -> bool) (ef
     (mkState (frames st ++ iter_frames cur x xs) (out st), Val (VList (map ef (filter gf xs)))).
 Proof.
   intros n st cur x le g e xs gf ef E Hg He.
-  change (eval (S n)) with (evalF (eval n)). cbn [evalF]. unfold eval_for_expr.
+  change (eval (S n)) with (evalF (eval n)). cbn [evalF]. unfold eval_for_expr. cbv iota.
   rewrite (eval_for_iter _ _ _ _ _ _ _ _ _ _ E).
   rewrite (for_each_map_filter n cur x g e gf ef xs Hg He). reflexivity.
 Qed.
